@@ -22,7 +22,7 @@ func init() {
 		QuickRuns:    5000,
 		ThoroughRuns: 150000,
 		RaceDivisor:  6,
-		RaceScope:    []string{"imapserver.", "imapmemserver.", "imapwire.", "v2.", "imapnum."},
+		RaceScope:    []string{"imapserver.", "imapmemserver.", "imapwire.", "v2.", "imapnum.", "utf7.", "internal."},
 		Run:          runC14,
 	})
 }
